@@ -117,7 +117,7 @@ fn check_master_transmit(m: &mut DpMaster, fdl: &FdlActiveStation, turn: Turn) {
             let declined = !sends[i] && b.rc == 0 && b.address == a.address && b.diag_needed == a.diag_needed
                 && if off[i] { !b.live } else { b.state == a.state && b.fcb == a.fcb };
             let sent = sends[i] && b.rc == a.rc + 1 && b.state == a.state && b.fcb == a.fcb && b.address == a.address;
-            assert!(unchanged || declined || sent, "C14/turn: a peripheral is untouched, declines its turn, or sends exactly one request");
+            vassert!(unchanged || declined || sent, "C14/turn: a peripheral is untouched, declines its turn, or sends exactly one request");
             if sent && !unchanged {
                 transmitted = Some(i);
                 n_tx += 1;
@@ -126,26 +126,26 @@ fn check_master_transmit(m: &mut DpMaster, fdl: &FdlActiveStation, turn: Turn) {
                 n_off += 1;
                 off_slot = i;
             }
-            assert!(inv_dp(p, fdl), "C03/inv: representation invariant preserved for every slot");
+            vassert!(inv_dp(p, fdl), "C03/inv: representation invariant preserved for every slot");
         }
         i += 1;
     }
-    assert!(n_tx <= 1, "C14/turn: at most one request per call");
+    vassert!(n_tx <= 1, "C14/turn: at most one request per call");
 
     // ---- events: nothing lost, nothing invented -------------------------------------------
-    assert!(n_off <= 1, "C14/events: at most one peripheral event can be reported per call, so at most one may occur");
+    vassert!(n_off <= 1, "C14/events: at most one peripheral event can be reported per call, so at most one may occur");
     match events.peripheral {
         Some((hd, ev)) => {
-            assert!(n_off == 1 && ev == crate::dp::PeripheralEvent::Offline, "C14/events: the only event of a transmit turn is Offline, reported iff a peripheral went offline");
-            assert!(hd.address() == pre[off_slot].unwrap().address, "C14/events: the event names the peripheral that went offline");
+            vassert!(n_off == 1 && ev == crate::dp::PeripheralEvent::Offline, "C14/events: the only event of a transmit turn is Offline, reported iff a peripheral went offline");
+            vassert!(hd.address() == pre[off_slot].unwrap().address, "C14/events: the event names the peripheral that went offline");
             kani::cover!(true, "cover: Offline event reported from transmit_telegram");
         }
-        None => assert!(n_off == 0, "C14/events: an Offline transition is never lost"),
+        None => vassert!(n_off == 0, "C14/events: an Offline transition is never lost"),
     }
 
     // ---- what was expected ---------------------------------------------------------------------
     if op == OperatingState::Stop {
-        assert!(res.is_none() && last_changed.is_none(), "C14/stop: nothing happens in Stop");
+        vassert!(res.is_none() && last_changed.is_none(), "C14/stop: nothing happens in Stop");
         return;
     }
     let gc_due = hp == HighPrioOnly::No
@@ -165,28 +165,28 @@ fn check_master_transmit(m: &mut DpMaster, fdl: &FdlActiveStation, turn: Turn) {
         let cmd = if op == OperatingState::Clear { 0x02 } else { 0x00 };
         match res {
             Some(r) => {
-                assert!(r.expects_reply().is_none(), "C14/global-control: global control is an unacknowledged broadcast");
+                vassert!(r.expects_reply().is_none(), "C14/global-control: global control is an unacknowledged broadcast");
                 match crate::fdl::Telegram::deserialize(&buf[..r.bytes_sent()]) {
                     Some(Ok((crate::fdl::Telegram::Data(t), _))) => {
-                        assert!(t.h == h && t.pdu.len() == 2 && t.pdu[0] == cmd && t.pdu[1] == 0, "C14/global-control: global control is the reference broadcast (DA 127, DSAP 58, SSAP 62, SDN low, [state, 0])");
+                        vassert!(t.h == h && t.pdu.len() == 2 && t.pdu[0] == cmd && t.pdu[1] == 0, "C14/global-control: global control is the reference broadcast (DA 127, DSAP 58, SSAP 62, SDN low, [state, 0])");
                     }
-                    _ => assert!(false, "C14/global-control: global control is a well-formed data telegram"),
+                    _ => vassert!(false, "C14/global-control: global control is a well-formed data telegram"),
                 }
             }
-            None => assert!(false, "C14/global-control: global control is sent when it is due"),
+            None => vassert!(false, "C14/global-control: global control is sent when it is due"),
         }
-        assert!(m.state.cycle_state == pre_cycle && last_changed.is_none(), "C14/global-control: global control does not touch the cycle or any peripheral");
-        assert!(m.state.last_global_control == Some(now), "C14/global-control: the send time is recorded");
+        vassert!(m.state.cycle_state == pre_cycle && last_changed.is_none(), "C14/global-control: global control does not touch the cycle or any peripheral");
+        vassert!(m.state.last_global_control == Some(now), "C14/global-control: the send time is recorded");
         kani::cover!(pre_lgc.is_some(), "cover: periodic global control");
         return;
     }
-    assert!(m.state.last_global_control == pre_lgc, "C14/global-control: no global control bookkeeping when none is sent");
+    vassert!(m.state.last_global_control == pre_lgc, "C14/global-control: no global control bookkeeping when none is sent");
 
     let idx0 = match pre_cycle {
         CycleState::CycleCompleted => {
-            assert!(res.is_none() && last_changed.is_none(), "C14/cycle: after a completed cycle the turn ends once without serving anybody");
-            assert!(m.state.cycle_state == CycleState::DataExchange(0), "C14/cycle: the next cycle starts at the first slot");
-            assert!(!events.cycle_completed, "C14/cycle: 'cycle completed' is not reported a second time");
+            vassert!(res.is_none() && last_changed.is_none(), "C14/cycle: after a completed cycle the turn ends once without serving anybody");
+            vassert!(m.state.cycle_state == CycleState::DataExchange(0), "C14/cycle: the next cycle starts at the first slot");
+            vassert!(!events.cycle_completed, "C14/cycle: 'cycle completed' is not reported a second time");
             kani::cover!(true, "cover: turn after a completed cycle");
             return;
         }
@@ -201,32 +201,32 @@ fn check_master_transmit(m: &mut DpMaster, fdl: &FdlActiveStation, turn: Turn) {
         }
         if i < n && i < idx0 {
             if let (Some(a), Some(p)) = (pre[i], peek(&m.peripherals, i)) {
-                assert!(snap(p) == a, "C14/order: slots before the cycle index are not served again in this cycle");
+                vassert!(snap(p) == a, "C14/order: slots before the cycle index are not served again in this cycle");
             }
         }
         i += 1;
     }
     match res {
         Some(r) => {
-            assert!(transmitted.is_some() && transmitted == first_sender, "C14/order: the request comes from the first slot at or after the cycle index that has something to send");
+            vassert!(transmitted.is_some() && transmitted == first_sender, "C14/order: the request comes from the first slot at or after the cycle index that has something to send");
             let s = transmitted.unwrap();
-            assert!(last_changed.unwrap() <= s, "C14/order: slots after the sender are untouched");
-            assert!(r.expects_reply() == Some(pre[s].unwrap().address), "C14/order: the request is addressed to that peripheral");
-            assert!(resolves_to(m, m.state.cycle_state, s), "C14/order: the cycle index stays at the sender until its reply or time-out");
-            assert!(!events.cycle_completed, "C14/cycle: no 'cycle completed' while a request is outstanding");
+            vassert!(last_changed.unwrap() <= s, "C14/order: slots after the sender are untouched");
+            vassert!(r.expects_reply() == Some(pre[s].unwrap().address), "C14/order: the request is addressed to that peripheral");
+            vassert!(resolves_to(m, m.state.cycle_state, s), "C14/order: the cycle index stays at the sender until its reply or time-out");
+            vassert!(!events.cycle_completed, "C14/cycle: no 'cycle completed' while a request is outstanding");
             kani::cover!(s > idx0, "cover: a declining slot is passed over before the sender");
         }
         None => {
-            assert!(n_tx == 0, "C14/turn: no request without a transmission result");
+            vassert!(n_tx == 0, "C14/turn: no request without a transmission result");
             if events.cycle_completed {
-                assert!(first_sender.is_none(), "C14/cycle: 'cycle completed' only when every remaining peripheral had its turn and declined");
-                assert!(m.state.cycle_state == CycleState::DataExchange(0), "C14/cycle: the next cycle starts at the first slot");
+                vassert!(first_sender.is_none(), "C14/cycle: 'cycle completed' only when every remaining peripheral had its turn and declined");
+                vassert!(m.state.cycle_state == CycleState::DataExchange(0), "C14/cycle: the next cycle starts at the first slot");
                 // everybody at/after the index was visited: those to be declared offline are offline now
                 let mut i = 0;
                 while i < MAXS {
                     if i < n && i >= idx0 {
                         if let Some(p) = peek(&m.peripherals, i) {
-                            assert!(!off[i] || !snap(p).live, "C14/cycle: a completed cycle has given every remaining peripheral its turn");
+                            vassert!(!off[i] || !snap(p).live, "C14/cycle: a completed cycle has given every remaining peripheral its turn");
                         }
                     }
                     i += 1;
@@ -235,14 +235,14 @@ fn check_master_transmit(m: &mut DpMaster, fdl: &FdlActiveStation, turn: Turn) {
                 kani::cover!(n_off == 1, "cover: cycle completes with an Offline event");
             } else {
                 // the turn ended early: only legitimate to report an event
-                assert!(n_off == 1, "C14/cycle: a turn without request and without 'cycle completed' only ends early to report an event");
+                vassert!(n_off == 1, "C14/cycle: a turn without request and without 'cycle completed' only ends early to report an event");
                 match first_sender {
-                    Some(fs) => assert!(off_slot < fs, "C14/order: nobody with something to send is passed over"),
+                    Some(fs) => vassert!(off_slot < fs, "C14/order: nobody with something to send is passed over"),
                     None => {}
                 }
                 let next = occupied_from(m, off_slot + 1);
-                assert!(next.is_some() && resolves_to(m, m.state.cycle_state, next.unwrap()), "C14/order: the cycle continues with the slot after the one that raised the event");
-                assert!(last_changed.unwrap() <= off_slot, "C14/order: slots after the reporting one are untouched");
+                vassert!(next.is_some() && resolves_to(m, m.state.cycle_state, next.unwrap()), "C14/order: the cycle continues with the slot after the one that raised the event");
+                vassert!(last_changed.unwrap() <= off_slot, "C14/order: slots after the reporting one are untouched");
                 kani::cover!(true, "cover: turn ended early to report an Offline event");
             }
         }
@@ -385,9 +385,9 @@ fn c14_master_empty_terminates() {
     let now = crate::time::Instant::from_micros(kani::any::<u32>());
     // high-priority-only turn: global control is never due, the slot loop is entered directly
     let res = m.transmit_telegram(now, &fdl, TelegramTx::new(&mut buf), HighPrioOnly::Yes);
-    assert!(res.is_none(), "C14/turn: a master without peripherals has nothing to send");
+    vassert!(res.is_none(), "C14/turn: a master without peripherals has nothing to send");
     if m.state.operating_state != OperatingState::Stop {
-        assert!(m.state.cycle_state == CycleState::DataExchange(0), "C14/cycle: the next cycle starts at the first slot");
+        vassert!(m.state.cycle_state == CycleState::DataExchange(0), "C14/cycle: the next cycle starts at the first slot");
     }
     kani::cover!(m.state.last_events.cycle_completed, "cover: empty cycle completes");
 }
@@ -404,7 +404,7 @@ fn hang_c14_master_empty() {
     m.state.operating_state = OperatingState::Operate;
     let mut buf = [0u8; 24];
     let res = m.transmit_telegram(crate::time::Instant::ZERO, &fdl, TelegramTx::new(&mut buf), HighPrioOnly::Yes);
-    assert!(res.is_none());
+    vassert!(res.is_none());
 }
 
 
@@ -450,24 +450,24 @@ fn check_master_receive(m: &mut DpMaster, fdl: &FdlActiveStation) {
     while i < n {
         if i != s {
             if let (Some(a), Some(p)) = (pre[i], peek(&m.peripherals, i)) {
-                assert!(snap(p) == a, "C14/routing: a reply touches only the peripheral it was addressed to");
+                vassert!(snap(p) == a, "C14/routing: a reply touches only the peripheral it was addressed to");
             }
         }
         i += 1;
     }
     match occupied_from(m, s + 1) {
         Some(next) => {
-            assert!(resolves_to(m, m.state.cycle_state, next), "C14/order: after a reply the cycle continues with the next occupied slot");
-            assert!(!events.cycle_completed, "C14/cycle: 'cycle completed' is not reported before the last peripheral had its turn");
+            vassert!(resolves_to(m, m.state.cycle_state, next), "C14/order: after a reply the cycle continues with the next occupied slot");
+            vassert!(!events.cycle_completed, "C14/cycle: 'cycle completed' is not reported before the last peripheral had its turn");
             kani::cover!(next > s + 1, "cover: an unoccupied slot is skipped");
         }
         None => {
-            assert!(m.state.cycle_state == CycleState::CycleCompleted && events.cycle_completed, "C14/cycle: the reply of the last peripheral completes the cycle, reported once");
+            vassert!(m.state.cycle_state == CycleState::CycleCompleted && events.cycle_completed, "C14/cycle: the reply of the last peripheral completes the cycle, reported once");
             kani::cover!(true, "cover: cycle completed by the last reply");
         }
     }
     match events.peripheral {
-        Some((hd, _ev)) => assert!(hd.address() == addr, "C14/events: the reported event names the peripheral that replied"),
+        Some((hd, _ev)) => vassert!(hd.address() == addr, "C14/events: the reported event names the peripheral that replied"),
         None => {}
     }
 }
@@ -554,4 +554,24 @@ fn c14_master_global_control() {
     let mut m = DpMaster::new(&mut storage[..]);
     m.state = any_master_state(1);
     check_master_transmit(&mut m, &fdl, Turn::GlobalControlDue);
+}
+
+/// Zero-length storage (`DpMaster::new(vec![])` before any peripheral is added, or `&mut []`):
+/// the turn ends.  The empty slice is taken from a one-element array so that its base pointer is a
+/// real object (a dangling zero-length slice pointer is not compared reliably by CBMC).
+#[kani::proof]
+#[kani::unwind(5)]
+fn c14_master_zero_length_storage() {
+    let fdl = any_fdl();
+    let mut backing = [mk_slot(None)];
+    let mut m = DpMaster::new(&mut backing[..0]);
+    m.state = any_master_state(0);
+    let mut buf = [0u8; 24];
+    let now = crate::time::Instant::from_micros(kani::any::<u32>());
+    let res = m.transmit_telegram(now, &fdl, TelegramTx::new(&mut buf), HighPrioOnly::Yes);
+    vassert!(res.is_none(), "C14/turn: a master without peripherals has nothing to send");
+    if m.state.operating_state != OperatingState::Stop {
+        vassert!(m.state.cycle_state == CycleState::DataExchange(0), "C14/cycle: the next cycle starts at the first slot");
+    }
+    kani::cover!(m.state.last_events.cycle_completed, "cover: empty cycle completes");
 }
